@@ -200,9 +200,12 @@ def r3_sources(ctx):
             cb = ctx.prog.body(inner[2][1][1])
             caps = dict(inner[2][1][2])
             rr = q.ret_assignments(cb)
-            s = sig(rr[0][2]) if rr else "?"
-            r.check(s == "StakeSet::votes(^self.0.stakes, ^my_epoch, $2)", "present/closure", "each term = votes(self.0.stakes, epoch, k)", "each term = %s" % s, "%s:%s" % (cb.file, cb.line))
-            ep = [sig(v) for n, v in caps.items() if "epoch" in n]
+            # the term with the closure's captures resolved in confirm's own terms (whatever the captured locals are called or bundled into)
+            t_ = q.subst_simplify(rr[0][2], {}, caps) if rr else ("unknown", "?")
+            s = sig(t_)
+            isv = q.is_call(t_, "StakeSet::votes") and len(t_[2]) == 3
+            r.check(isv and sig(t_[2][0]) == "$1.0.stakes" and sig(t_[2][2]) == "$2", "present/closure", "each term = votes(self.0.stakes, epoch, k)", "each term = %s" % s, "%s:%s" % (cb.file, cb.line))
+            ep = [sig(t_[2][1])] if isv else []
             r.check(ep == [EP], "present/epoch", "closure epoch = %s" % EP, "closure epoch = %s" % ep, body.where(bi))
     res = q.result_blocks(body)
     for b, e in res["Some"]:
